@@ -10,16 +10,18 @@ import resolution_common as rc
 GEN = []
 RULE = ("random families: 1-4 context layers (20% exclusive) x 0-4 overloads each; signatures with 0-4 visible "
         "parameters, hidden engine/context anywhere, defaults, *args, **kwargs, keyword-only, lazy Lambda/"
-        "YaqlExpression, types from object + 6-class lattice with a diamond, function/method/extension, no_kwargs; "
-        "calls: positional/skipped/keyword (name => v)/python kwargs, receiver or not, probe/constant/raw arguments; "
+        "YaqlExpression/MappingRule, Constant, types from object + 6-class lattice with a diamond, function/method/extension, "
+        "no_kwargs; calls: positional/skipped/keyword (name => v)/python kwargs, receiver or not, probe/constant/raw arguments, "
+        "made through the API and - where the grammar can spell them - also as YAQL text through the real parser; "
         "non-trivial = at least 3 of the features {hidden, lazy, star, starstar, kwonly, exclusive, layers, receiver, "
         "skipped, keyword, pykwargs}; distinct = distinct (family, call)")
 TRUSTED = ["Model/Resolution.v is a hand transcription of runner.call/choose_overload/translate_args, "
            "specs.map_args/get_delegate, yaqltypes check/is_specialization_of and collect_functions; tied by this correspondence",
            "harness/resolution_common.py: probe expressions, the ordered Context subclass, canonicalisation of what payloads receive, "
            "and the independent python implementation of the documented rules used by O"]
-ASSUMPTIONS = ["parameter types are PythonType over single classes, Lambda(), YaqlExpression(), Engine(), Context(); "
-               "aggregated smart-types (AnyOf/Chain/NotOfType), Super/Delegate/YaqlInterface and constant kinds are not modelled",
+ASSUMPTIONS = ["parameter types are PythonType over single classes, Lambda(), YaqlExpression(), MappingRule(), Constant(False), Engine(), "
+               "Context(); aggregated smart-types (AnyOf/Chain/NotOfType), Super/Delegate/YaqlInterface/Receiver, Lambda(method=True) "
+               "and the typed constant kinds (StringConstant, Keyword, ...) are not modelled",
                "smart-type check() has no side effects and argument expressions are only evaluated through Expression.__call__",
                "within one layer FunctionDefinition identities are unique and visible parameter aliases of one definition are distinct"]
 EXPLANATION = ("proof that the model's choose_overload equals the documented rules stated on sets (and evaluates each eager "
